@@ -301,3 +301,25 @@ def check_heuristic_objective(ctx, wrapper, prefix=""):
                 ctx.fail(prefix + "heuristic-objective-sense", "MOSEK back-end: the heuristic objective is not minimised")
                 return
         ctx.label("heuristic-objective-checked:" + rec["side"])
+
+
+def solver_point_infeasible(wrapper, ctx, tol=1e-6):
+    """True (counted as inconclusive) when the point returned by the numerical solver violates the solver's OWN problem -
+    cvxpy's residuals of the constraints it was given, PSD-ness of the Gram variable included - by more than `tol` although
+    the status says optimal (seen with CLARABEL on infeasible soups bounded only by large caps: min eigenvalue of G -1.4e-3).
+    Independent of PEPit: a constraint that PEPit mis-states or mis-sends is still satisfied by the solver's point."""
+    prob = getattr(wrapper, "prob", None)
+    if prob is None:
+        return False
+    worst = 0.0
+    try:
+        for c in prob.constraints:
+            v = c.violation()
+            worst = max(worst, float(np.max(v)))
+    except Exception:  # noqa
+        return False
+    if worst > tol:
+        ctx.label("inconclusive:solver-point-violates-its-own-problem")
+        ctx.observe("solver_own_violation", worst)
+        return True
+    return False
